@@ -63,6 +63,20 @@ func newProgGen(rng *RNG) *progGen {
 		}
 		g.sigs = append(g.sigs, predSig{name, cols})
 	}
+	// the same predicate NAME with another arity (its columns a prefix of, or an extension of, an
+	// existing signature): facts of different arity are different facts, whatever their prefix
+	if rng.Chance(25) && len(g.sigs) > 0 {
+		base := g.sigs[rng.Intn(len(g.sigs))]
+		var cols []int
+		if len(base.Cols) > 0 && rng.Bool() {
+			cols = append(cols, base.Cols[:len(base.Cols)-1]...)
+		} else if len(base.Cols) < 3 {
+			cols = append(append(cols, base.Cols...), []int{KInt, KStr}[rng.Intn(2)])
+		}
+		if len(cols) != len(base.Cols) {
+			g.sigs = append(g.sigs, predSig{base.Name, cols})
+		}
+	}
 	return g
 }
 
